@@ -1,6 +1,7 @@
 import Driver.Util
 import TorrentVerif.Model.HasherV1
 import TorrentVerif.Model.Merkle
+import Driver.G5
 /-
   Correspondence driver.  One request per input line, one answer per output line.
   For every request it evaluates the implementation model `Impl.*` and the specification
@@ -48,7 +49,10 @@ def handle : List String → Except String String
       "F0", hexOfBytes f0.1, hexOfBytes f0.2.1, joinHex f0.2.2.1, optNat f0.2.2.2,
       "F1", hexOfBytes f1.1, hexOfBytes f1.2.1, joinHex f1.2.2.1, optNat f1.2.2.2,
       "SP", hexOfBytes sroot, joinHex slayer, joinHex spieces, optNat spad])
-  | t => .error s!"bad-op:{" ".intercalate t}"
+  | t =>
+    match handleG5 t with
+    | some r => r
+    | none => .error s!"bad-op:{" ".intercalate t}"
 
 partial def loop (hin hout : IO.FS.Stream) : IO Unit := do
   let line ← hin.getLine
